@@ -526,7 +526,7 @@ package avro
 //@      && (rc.fields[k].offset != MaxUint64 ==> typed(rc.fields[k].codec) && rc.fields[k].offset < 1<<40 && int(rc.fields[k].offset) + dsz(rc.fields[k].codec) <= recsz(rc) && dsz(rc.fields[k].codec) > 0)
 //@ spec present(rc ptr, k int) bool = rc.fields[k].offset != MaxUint64
 //@ spec disjointFields(rc ptr, j int, k int) bool = int(rc.fields[j].offset) + dsz(rc.fields[j].codec) <= int(rc.fields[k].offset) || int(rc.fields[k].offset) + dsz(rc.fields[k].codec) <= int(rc.fields[j].offset)
-//@ type *recordCodec : omitv(p) = false ; typed = true ; dsz = recsz(this) ; wfc = this != nil && 0 <= recsz(this) && recsz(this) < 1<<40 && (forall k int :: 0 <= k && k < len(this.fields) ==> fieldOK(this, k)) \
+//@ type *recordCodec : omitv(p) = false ; typed = this.rtype != nil && data(this.rtype) != nil && recsz(this) == rtypesz(data(this.rtype)) ; dsz = recsz(this) ; wfc = this != nil && 0 <= recsz(this) && recsz(this) < 1<<40 && (forall k int :: 0 <= k && k < len(this.fields) ==> fieldOK(this, k)) \
 //@        && (forall j int, k int :: 0 <= j && j < k && k < len(this.fields) && present(this, j) && present(this, k) ==> disjointFields(this, j, k)) ; \
 //@      cend(b, i) = rend(this, b, i, len(this.fields)) ; \
 //@      wfval(p) = p != nil && (forall k int :: 0 <= k && k < len(this.fields) ==> this.fields[k].offset != MaxUint64 && wfval(this.fields[k].codec, uintptr(p) + this.fields[k].offset))
@@ -1471,4 +1471,74 @@ package avro
 //@   requires wfRBS(r) && u != nil
 //@   ensures [C05,C20,C03,C04] wfRBS(r) && r.i == i0 && r.buf == b0 && sameobj(b0)
 //@   ensures [C05,C20,C11,C03] res != nil && rawalloc(res, 16) && rawfresh(res, 16) && zeroed(res, 16)
+//@   modifies r.rb.types, type resourceType, M[0, 0]
+
+// ---------------------------------------------------------------- New of the leaf codecs: a bank allocation of the codec's destination type
+// (the *Type variables are set by package initialisation with reflect.TypeOf of a value of that type)
+//@ global int64Type != nil && data(int64Type) != nil && rtypesz(data(int64Type)) == 8 && int32Type != nil && data(int32Type) != nil && rtypesz(data(int32Type)) == 4 && int16Type != nil && data(int16Type) != nil && rtypesz(data(int16Type)) == 2
+//@ global floatType != nil && data(floatType) != nil && rtypesz(data(floatType)) == 4 && doubleType != nil && data(doubleType) != nil && rtypesz(data(doubleType)) == 8
+//@ global boolType != nil && data(boolType) != nil && rtypesz(data(boolType)) == 1 && bytesType != nil && data(bytesType) != nil && rtypesz(data(bytesType)) == 24 && stringType != nil && data(stringType) != nil && rtypesz(data(stringType)) == 16
+//@ spec newOK(r ptr, res ptr, n int) bool = res != nil && rawalloc(res, n) && rawfresh(res, n) && zeroed(res, n)
+
+//@ func (IntCodec[T]).New for T in int16,int32,int64
+//@   implements Codec.New
+//@   props C06, C03, C05
+//@   let i0 := r.i, b0 := r.buf
+//@   requires wfRBS(r)
+//@   ensures [C05,C20,C03,C04,C06] wfRBS(r) && r.i == i0 && r.buf == b0 && sameobj(b0)
+//@   ensures [C05,C20,C11,C03,C06] newOK(r, res, sizeof(T))
+//@   modifies r.rb.types, type resourceType, M[0, 0]
+
+//@ func (floatCodec[T]).New for T in float32,float64
+//@   implements Codec.New
+//@   props C06, C03, C05
+//@   let i0 := r.i, b0 := r.buf
+//@   requires wfRBS(r)
+//@   ensures [C05,C20,C03,C04,C06] wfRBS(r) && r.i == i0 && r.buf == b0 && sameobj(b0)
+//@   ensures [C05,C20,C11,C03,C06] newOK(r, res, sizeof(T))
+//@   modifies r.rb.types, type resourceType, M[0, 0]
+
+//@ func (Float32DoubleCodec).New
+//@   implements Codec.New
+//@   props C06, C03, C05
+//@   let i0 := r.i, b0 := r.buf
+//@   requires wfRBS(r)
+//@   ensures [C05,C20,C03,C04,C06] wfRBS(r) && r.i == i0 && r.buf == b0 && sameobj(b0)
+//@   ensures [C05,C20,C11,C03,C06] newOK(r, res, 4)
+//@   modifies r.rb.types, type resourceType, M[0, 0]
+
+//@ func (BoolCodec).New
+//@   implements Codec.New
+//@   props C06, C03, C05
+//@   let i0 := r.i, b0 := r.buf
+//@   requires wfRBS(r)
+//@   ensures [C05,C20,C03,C04,C06] wfRBS(r) && r.i == i0 && r.buf == b0 && sameobj(b0)
+//@   ensures [C05,C20,C11,C03,C06] newOK(r, res, 1)
+//@   modifies r.rb.types, type resourceType, M[0, 0]
+
+//@ func (BytesCodec).New
+//@   implements Codec.New
+//@   props C06, C03, C05
+//@   let i0 := r.i, b0 := r.buf
+//@   requires wfRBS(r)
+//@   ensures [C05,C20,C03,C04,C06] wfRBS(r) && r.i == i0 && r.buf == b0 && sameobj(b0)
+//@   ensures [C05,C20,C11,C03,C06] newOK(r, res, 24)
+//@   modifies r.rb.types, type resourceType, M[0, 0]
+
+//@ func (StringCodec).New
+//@   implements Codec.New
+//@   props C06, C03, C05
+//@   let i0 := r.i, b0 := r.buf
+//@   requires wfRBS(r)
+//@   ensures [C05,C20,C03,C04,C06] wfRBS(r) && r.i == i0 && r.buf == b0 && sameobj(b0)
+//@   ensures [C05,C20,C11,C03,C06] newOK(r, res, 16)
+//@   modifies r.rb.types, type resourceType, M[0, 0]
+
+//@ func (*recordCodec).New
+//@   implements Codec.New
+//@   props C06, C03, C05
+//@   let i0 := r.i, b0 := r.buf
+//@   requires wfRBS(r) && rc != nil && rc.rtype != nil
+//@   ensures [C05,C20,C03,C04,C06] wfRBS(r) && r.i == i0 && r.buf == b0 && sameobj(b0)
+//@   ensures [C05,C20,C11,C03,C06] newOK(r, res, rtypesz(data(rc.rtype)))
 //@   modifies r.rb.types, type resourceType, M[0, 0]
